@@ -4,7 +4,7 @@ from harness.common import known_predicate
 
 @known_predicate
 def c01_damaged_while_initialized(case, what):
-    """C01-F2: parse() raises a sqlite3.DatabaseError because the cache file was deleted / overwritten / lost its
+    """C01-F2 (fixed by 821b239; kept for the record, a fixed entry suppresses nothing): parse() raises a sqlite3.DatabaseError because the cache file was deleted / overwritten / lost its
     `models` table *after* this process had put it into parse.initialized_dbs, and the module was not reloaded
     since.  Recognised from the history alone; any other exception, a wrong tree, or a DatabaseError in a synced
     state is not this finding."""
